@@ -66,6 +66,11 @@ def gen(rng, tier, idx):
         same = [p for p in range(1, 7) if common.effective_chunk(n, scn['cfg']['chunk_size'], p) == base]
         for kk in ks:
             kk['n_processors'] = rng.choice(same) if rng.random() < 0.5 else scn['cfg']['n_processors']
+    # transposition: the output must not depend on the number of workers at all
+    if stage == 'transpose':
+        for kk in ks:
+            if rng.random() < 0.6:
+                kk['n_processors'] = rng.randint(1, 6)
     scn['kernels'] = ks
     return scn
 
